@@ -21,17 +21,13 @@ PRIMS1 = ['match_scope', 'match_symbol', 'match_type_suffix', 'match_constant']
 CUR = {'number': 'number_cur', 'generic': 'generic_cur', 'unmatched': 'unmatched_cur'}
 
 
-def long_digit_run(bs, pos):
-    m = re.match(rb'-?(\d*)', bs[pos:])
-    return m is not None and len(m.group(1)) >= 20
-
-
 def prim_texts(ctx, docs):
     """byte strings aimed at the scanner primitives: (class, bytes)"""
     rng = ctx.rng
     out = []
     nums = [b'0', b'-0', b'1', b'12', b'-12', b'1.', b'-1.', b'0.', b'1.5', b'-1.5e3', b'1e', b'1e+', b'1e-', b'1e+5', b'1E-2', b'0.0', b'00', b'01', b'-',
-            b'-.', b'.5', b'1.e5', b'1.5e', b'123456789012345678', b'18446744073709551615', b'1844674407370955161', b'9999999999999999999', b'255', b'256', b'-1',
+            b'-.', b'.5', b'1.e5', b'1.5e', b'123456789012345678', b'18446744073709551615', b'18446744073709551616', b'18446744073709551614', b'18446744073709551625', b'1844674407370955161', b'1844674407370955162',
+            b'9999999999999999999', b'30000000000000000000', b'99999999999999999999', b'184467440737095516150', b'-18446744073709551615', b'-18446744073709551616', b'000000000000000000000001', b'255', b'256', b'-1',
             b'12345678901234567890123', b'1.5x', b'1x', b'-a', b'1.2.3', b'1ee5', b'+1', b'true', b'false', b'tru', b'fals', b'null', b'nul', b'nullx', b'truefalse']
     terms = [b'', b',', b' ', b'}', b']', b':', b'\n', b'\r', b'\t', b'\x0b', b'x', b'"', b'.', b'e', b' ,']
     for n in nums:
@@ -252,8 +248,6 @@ def run(ctx):
             if err != 0 and not (0 <= loc <= n):
                 ctx.violation('prop:error_loc:' + prim, '%s set error %d with error_loc %d outside the %d-byte input' % (prim, err, loc, n), replay); continue
         # correspondence
-        if prim in ('integer', 'uint8', 'bool') and long_digit_run(text, pos):
-            continue     # wrap-around of 20+ digit runs: value semantics belong to C19; bounds were checked above
         if prim == 'char_array':
             af = a.split()
             if len(af) == 7:
